@@ -538,3 +538,50 @@ V('c01-twin-label-ge', 'C01', 'C01.LABEL', OUTF, "        if length > 63:\n     
 V('c01-twin-srv-locals-reordered', 'C01', 'C01.LAYOUT', INCF,
   "            priority = view[offset] << 8 | view[offset + 1]\n            weight = view[offset + 2] << 8 | view[offset + 3]\n            port = view[offset + 4] << 8 | view[offset + 5]",
   "            port = view[offset + 4] << 8 | view[offset + 5]\n            weight = view[offset + 2] << 8 | view[offset + 3]\n            priority = view[1 + offset] | view[offset] << 8", expect='silent')
+
+# ---------------------------------------------------------------- C11
+V('c11-qu-probe-mcast-only', 'C11', 'C11.ROUTE', QHF,
+  "            if self._is_probe:\n                self._ucast.add(record)\n            if not self._has_mcast_within_one_quarter_ttl(record):",
+  "            if not self._has_mcast_within_one_quarter_ttl(record):")
+V('c11-qu-always-unicast', 'C11', 'C11.ROUTE', QHF,
+  "            elif not self._is_probe:\n                self._ucast.add(record)", "            else:\n                self._ucast.add(record)",
+  more=[(QHF, "            if not self._has_mcast_within_one_quarter_ttl(record):\n                self._mcast_now.add(record)", "            if False:\n                self._mcast_now.add(record)")])
+V('c11-qu-from-unicast-source-no-mcast', 'C11', 'C11.ROUTE', QHF,
+  "            if not ucast_source and is_unicast:", "            if is_unicast:")
+V('c11-ucast-source-no-unicast', 'C11', 'C11.ROUTE', QHF,
+  "            if ucast_source:\n                query_res.add_ucast_question_response(answer_set)", "            if ucast_source and is_unicast:\n                query_res.add_ucast_question_response(answer_set)")
+V('c11-history-records-qu', 'C11', 'C11.ROUTE', QHF,
+  "            if not is_unicast:\n                if known_answers_set is None:", "            if True:\n                if known_answers_set is None:")
+V('c11-probe-aggregated', 'C11', 'C11.ROUTE', QHF,
+  "            if self._is_probe:\n                self._mcast_now.add(answer)\n                continue\n\n", "")
+V('c11-last-second-to-aggregate', 'C11', 'C11.ROUTE', QHF,
+  "                self._mcast_aggregate_last_second.add(answer)\n                continue", "                self._mcast_aggregate.add(answer)\n                continue")
+V('c11-immediate-any-count', 'C11', 'C11.ROUTE', QHF,
+  "            if len(self._questions) == 1:\n                question = self._questions[0]", "            if len(self._questions) >= 1:\n                question = self._questions[0]")
+V('c11-ptr-immediate', 'C11', 'C11.ROUTE', QHF,
+  "_RESPOND_IMMEDIATE_TYPES = {_TYPE_NSEC, _TYPE_SRV, *_ADDRESS_RECORD_TYPES}", "_RESPOND_IMMEDIATE_TYPES = {_TYPE_NSEC, _TYPE_SRV, _TYPE_PTR, *_ADDRESS_RECORD_TYPES}")
+V('c11-unicast-without-transport', 'C11', 'C11.ROUTE', QHF,
+  "            self.zc.async_send(out, addr, port, v6_flow_scope, transport)", "            self.zc.async_send(out, addr, port, v6_flow_scope)")
+V('c11-unicast-to-mdns-port', 'C11', 'C11.ROUTE', QHF,
+  "            self.zc.async_send(out, addr, port, v6_flow_scope, transport)", "            self.zc.async_send(out, addr, _MDNS_PORT, v6_flow_scope, transport)")
+V('c11-last-second-wrong-queue', 'C11', 'C11.ROUTE', QHF,
+  "            self.out_delay_queue.async_add(first_packet.now, question_answers.mcast_aggregate_last_second)", "            self.out_queue.async_add(first_packet.now, question_answers.mcast_aggregate_last_second)")
+V('c11-ucast-source-53', 'C11', 'C11.ROUTE', QHF, "        ucast_source = port != _MDNS_PORT", "        ucast_source = port < _MDNS_PORT")
+V('c11-transport-not-passed', 'C11', 'C11.ROUTE', '_listener.py',
+  "            self._respond_query(msg, addr, port, transport, v6_flow_scope)\n            return", "            self._respond_query(msg, addr, port, self.transport, v6_flow_scope)\n            return", expect='silent')
+V('c11-unicast-built-multicast', 'C11', 'C11.FORMAT', '_handlers/answers.py',
+  "    out = DNSOutgoing(_FLAGS_QR_RESPONSE_AA, False, id_)", "    out = DNSOutgoing(_FLAGS_QR_RESPONSE_AA, True, id_)")
+V('c11-unicast-id-dropped', 'C11', 'C11.FORMAT', '_handlers/answers.py',
+  "    out = DNSOutgoing(_FLAGS_QR_RESPONSE_AA, False, id_)", "    out = DNSOutgoing(_FLAGS_QR_RESPONSE_AA, False)")
+V('c11-always-echo', 'C11', 'C11.FORMAT', '_handlers/answers.py',
+  "    if ucast_source:\n        for question in questions:", "    if questions:\n        for question in questions:")
+V('c11-mcast-not-authoritative', 'C11', 'C11.FORMAT', '_handlers/answers.py',
+  "_FLAGS_QR_RESPONSE_AA = _FLAGS_QR_RESPONSE | _FLAGS_AA", "_FLAGS_QR_RESPONSE_AA = _FLAGS_QR_RESPONSE")
+V('c11-mcast-echoes-question', 'C11', 'C11.FORMAT', '_handlers/answers.py',
+  "    out = DNSOutgoing(_FLAGS_QR_RESPONSE_AA, True)\n    _add_answers_additionals(out, answers)", "    out = DNSOutgoing(_FLAGS_QR_RESPONSE_AA, True)\n    for answer in answers:\n        out.add_question(DNSQuestion(answer.name, answer.type, answer.class_))\n    _add_answers_additionals(out, answers)")
+V('c11-recent-half', 'C11', 'C11.FORMAT', DNS, "_RECENT_TIME_MS = 250", "_RECENT_TIME_MS = 500")
+V('c11-id-of-last-packet', 'C11', 'C11.FORMAT', QHF, "            id_ = first_packet.id", "            id_ = packets[-1].id")
+# twins
+V('c11-twin-qu-rewritten', 'C11', 'C11.ROUTE', QHF,
+  "            if self._is_probe:\n                self._ucast.add(record)\n            if not self._has_mcast_within_one_quarter_ttl(record):\n                self._mcast_now.add(record)\n            elif not self._is_probe:\n                self._ucast.add(record)",
+  "            recent = self._has_mcast_within_one_quarter_ttl(record)\n            if not recent:\n                self._mcast_now.add(record)\n            if self._is_probe or recent:\n                self._ucast.add(record)", expect='silent')
